@@ -12,7 +12,7 @@
 (*   value   on the computable fragment the recorded value is the spec's   *)
 (*   pure    a repeated key has the outcome recorded the first time (C16)  *)
 (***************************************************************************)
-EXTENDS CallFn, Json, IOUtils, TLC, TLCExt
+EXTENDS CallFn, ParseSteps, Json, IOUtils, TLC, TLCExt
 
 Rec == ndJsonDeserialize(IOEnv.TRACE)
 
@@ -35,6 +35,15 @@ StatusOK(ev, syn) ==
 
 TicksOK(ev) == ev.ticks <= StepBound(ev.len) /\ ev.len = Len(ev.chars)
 
+\* the step counts recorded by the hook are exactly the ones the specification's parser and tree walk take
+StepsOK(ev, syn) ==
+  "tk" \in DOMAIN ev =>
+     /\ ev.tk.lex + ev.tk.parse + ev.tk.eval + ev.tk.loops = ev.ticks
+     /\ ev.tk.lex <= 2 * ev.len + 2
+     /\ LexOk(syn.toks) => ev.tk.parse = ParseSt(KindsOf(syn.toks)).st
+     /\ (ev.st = "ok" /\ syn.v = "accept") => ev.tk.eval = EvalNodes(syn.tree)
+     /\ syn.v = "reject" /\ syn.rule # "literal out of range" => ev.tk.eval = 0
+
 ValueOK(ev, syn) ==
   LET val == Value(ev.e, syn, PhOf(ev)) IN
   /\ val.k = "err" => ev.st = "err"
@@ -48,12 +57,14 @@ PureOK(ev) == ("kid" \in DOMAIN ev /\ ev.kid \in DOMAIN seen) =>
 
 Diag(ev) ==
   LET syn == Syntax(ev.e, ev.chars) IN
-  [claim |-> ClaimOK(ev, syn), status |-> StatusOK(ev, syn), ticks |-> TicksOK(ev), value |-> ValueOK(ev, syn), pure |-> PureOK(ev),
+  [claim |-> ClaimOK(ev, syn), status |-> StatusOK(ev, syn), ticks |-> TicksOK(ev) /\ StepsOK(ev, syn),
+   parse_steps |-> IF LexOk(syn.toks) THEN ParseSt(KindsOf(syn.toks)).st ELSE -1,
+   eval_nodes |-> IF syn.v = "accept" THEN EvalNodes(syn.tree) ELSE -1, value |-> ValueOK(ev, syn), pure |-> PureOK(ev),
    verdict |-> syn.v, rule |-> syn.rule, kinds |-> KindsOf(syn.toks), expected |-> Value(ev.e, syn, PhOf(ev))]
 
 EventOK(ev) ==
   LET syn == Syntax(ev.e, ev.chars) IN
-  ClaimOK(ev, syn) /\ StatusOK(ev, syn) /\ TicksOK(ev) /\ ValueOK(ev, syn) /\ PureOK(ev)
+  ClaimOK(ev, syn) /\ StatusOK(ev, syn) /\ TicksOK(ev) /\ StepsOK(ev, syn) /\ ValueOK(ev, syn) /\ PureOK(ev)
 
 \* counters (TLC registers; the trace spec runs with one worker): what was actually decided
 Count(ev) ==
